@@ -95,8 +95,12 @@ def _register_object(new_type, version=version.DEFAULT_VERSION):
     _validate_props(new_type._properties, version)
 
     OBJ_MAP = registry.STIX2_OBJ_MAPS[version]['objects']
+    OBJ_MAP_OBSERVABLE = registry.STIX2_OBJ_MAPS[version]['observables']
     if new_type._type in OBJ_MAP.keys():
         raise DuplicateRegistrationError("STIX Object", new_type._type)
+    if new_type._type in OBJ_MAP_OBSERVABLE.keys():
+        # An object's type is looked up among the objects and the observables.
+        raise DuplicateRegistrationError("Cyber Observable", new_type._type)
     OBJ_MAP[new_type._type] = new_type
 
 
@@ -140,8 +144,12 @@ def _register_observable(new_observable, version=version.DEFAULT_VERSION):
     )
 
     OBJ_MAP_OBSERVABLE = registry.STIX2_OBJ_MAPS[version]['observables']
+    OBJ_MAP = registry.STIX2_OBJ_MAPS[version]['objects']
     if new_observable._type in OBJ_MAP_OBSERVABLE.keys():
         raise DuplicateRegistrationError("Cyber Observable", new_observable._type)
+    if new_observable._type in OBJ_MAP.keys():
+        # An object's type is looked up among the objects and the observables.
+        raise DuplicateRegistrationError("STIX Object", new_observable._type)
     OBJ_MAP_OBSERVABLE[new_observable._type] = new_observable
 
 
